@@ -359,6 +359,24 @@ def correspondence_sys(ctx, rng, dist):
                           "closed-system model and SSESolver disagree on an exact step",
                           {"case": describe(case), "impl": str(im), "model": str(model),
                            "kind": "sde"}, found_input=True)
+    # the identity of C17_sse_norm_drift_vanishes on the real system object,
+    # exactly (dyadic data): 2 Re <psi, a> + sum <b_c, b_c> == 0
+    import qutip
+    from qutip.solver.sode.ssystem import StochasticClosedSystem
+    for case in cases:
+        sysobj = StochasticClosedSystem(qutip.QobjEvo(qutip.Qobj(case["H"])),
+                                        [qutip.QobjEvo(qutip.Qobj(c)) for c in case["scs"]])
+        psi = qutip.Qobj(case["rho"]).data
+        pa = np.array(psi.to_array())
+        av = np.array(sysobj.drift(0., psi).to_array())
+        bs = [np.array(x.to_array()) for x in sysobj.diffusion(0., psi)]
+        val = 2 * np.vdot(pa, av).real + sum(np.vdot(b, b).real for b in bs)
+        ctx.count_case(("sse-norm", repr(describe(case))), nontrivial=True)
+        if val != 0.0:
+            ctx.violation("sode/ssystem.pyx:StochasticClosedSystem", "norm-drift-nonzero",
+                          "2 Re <psi, drift(psi)> + sum <b_c(psi), b_c(psi)> = %r on exact "
+                          "dyadic data (must vanish: the norm is kept in the mean)" % val,
+                          {"case": describe(case), "kind": "sde"})
     for case, a, v in zip(rcases, rimpl, vals[len(cases):]):
         pv = vlib.parse_coq_value(v)
         want = rouchon_model_to_float(pv)
